@@ -119,7 +119,8 @@ struct Env {
         bool poison_regs = true;
         // dedicated call stack
         uint8_t *stk_lo = nullptr, *stk_hi = nullptr; // accessible range
-        uint64_t call_rsp = 0;
+        uint64_t call_rsp = 0, base_rsp = 0;
+        int stack_phase = 0;
         std::vector<uint8_t> poison_ref; // pristine copy of the 64 KiB below call_rsp + canary above
         SimFrame *frame = nullptr;
         uint64_t ncalls = 0;
